@@ -9,6 +9,7 @@ import (
 	"os"
 
 	"github.com/ipld/go-storethehash/store/types"
+	"github.com/ipld/go-storethehash/store/vhook"
 )
 
 func upgradeIndex(ctx context.Context, name, headerPath string, maxFileSize uint32) error {
@@ -33,16 +34,19 @@ func upgradeIndex(ctx context.Context, name, headerPath string, maxFileSize uint
 		return fmt.Errorf("cannot convert unknown header version: %d", version)
 	}
 
+	vhook.Point("iup.begin")
 	fileNum, err := chunkOldIndex(ctx, inFile, name, int64(maxFileSize))
 	if err != nil {
 		return err
 	}
 	inFile.Close()
 
+	vhook.Point("iup.header")
 	if err = writeHeader(headerPath, newHeader(bucketBits, maxFileSize)); err != nil {
 		return err
 	}
 
+	vhook.Point("iup.remove")
 	if err = os.Remove(name); err != nil {
 		return err
 	}
@@ -108,6 +112,7 @@ func chunkOldIndex(ctx context.Context, file *os.File, name string, fileSizeLimi
 		}
 		written += sizePrefixSize + int64(size)
 		if written >= fileSizeLimit {
+			vhook.Point("iup.chunk.flush")
 			if err = writer.Flush(); err != nil {
 				return 0, err
 			}
@@ -117,6 +122,7 @@ func chunkOldIndex(ctx context.Context, file *os.File, name string, fileSizeLimi
 			}
 			fileNum++
 			outName = indexFileName(name, fileNum)
+			vhook.Point("iup.chunk.create")
 			outFile, err = createFileAppend(outName)
 			if err != nil {
 				return 0, err
@@ -126,6 +132,7 @@ func chunkOldIndex(ctx context.Context, file *os.File, name string, fileSizeLimi
 			written = 0
 		}
 	}
+	vhook.Point("iup.chunk.last")
 	if written != 0 {
 		if err = writer.Flush(); err != nil {
 			return 0, err
